@@ -5,11 +5,11 @@ from . import _nodecommon
 
 ID = "C07"
 SUITES = ["rot", "node", "core"]
-LEAN_MODULES = ["VpnCloud.Proofs.C07", "VpnCloud.Proofs.C07More", "VpnCloud.Proofs.C07Session", "VpnCloud.Proofs.RotPanic", "VpnCloud.Proofs.C07Keys"]
+LEAN_MODULES = ["VpnCloud.Proofs.C07", "VpnCloud.Proofs.C07More", "VpnCloud.Proofs.C07Session", "VpnCloud.Proofs.RotPanic", "VpnCloud.Proofs.C07Keys", "VpnCloud.Proofs.GuardsUsed"]
 THEOREMS = ["VpnCloud.Rot.rotation_sync", "VpnCloud.Rot.inv_step", "VpnCloud.Rot.inv_init",
             "VpnCloud.Rot.inv_reachable", "VpnCloud.Rot.ids_interlock", "VpnCloud.Rot.sent_ids_bounded", "VpnCloud.Rot.only_latest_matters", "VpnCloud.Rot.receive_before_send", "VpnCloud.Rot.receive_before_send_y", "VpnCloud.Rot.latest_sent", "VpnCloud.Rot.lockstep_progress", "VpnCloud.Rot.lockstep_fresh", "VpnCloud.Rot.lockstep_new_keys", "VpnCloud.Rot.lockstep_fresh_keys"]
 THEOREMS = THEOREMS + ["VpnCloud.Proofs.C07Session." + n for n in ('op_refines', 'refinement', 'core_slots_are_rot_slots', 'good_reachable', 'session_rotation_sync', 'fresh_payload_opens', 'completion_responder', 'completion_initiator', 'handleRotate_tail_irrelevant', 'rotation_period', 'ahead_progress', 'lost_message_only_delays', 'lockstep_session', 'rotatePanics_tail_irrelevant')]
-THEOREMS = THEOREMS + ["VpnCloud.Proofs.RotPanic.honest_sessions_never_panic"]
+THEOREMS = THEOREMS + ["VpnCloud.Proofs.RotPanic.honest_sessions_never_panic", "VpnCloud.Proofs.GuardsUsed.rotMsgStale_boundary"]
 THEOREMS = THEOREMS + ["VpnCloud.Rot." + n for n in ("K_inj", "greach_sound", "greach_complete", "step_installs_logged", "installed_keys_fresh", "installed_keys_dh", "both_ends_same_exchange_log", "both_ends_same_exchange", "different_exchanges_different_keys")]
 BATCH = 100
 SEARCH_BUDGET_S = 300
